@@ -11,15 +11,18 @@
 (*   compose NCompose seeded pseudo-random concatenations of ComposeSize    *)
 (*           probes with disjoint name prefixes                             *)
 (* Every state prints one JSON line (tag PROG) that the glue writes as text.*)
-(* SyntaxData (generated): MaxOps, Seed, NCompose, ComposeSize.            *)
+(* SyntaxData (generated): MaxOps, MaxOpsDeep, DeepSyms, Seed, NCompose.   *)
 (***************************************************************************)
 EXTENDS Syntax, Json, SyntaxData
 
 VARIABLE st
 
-AllProbes == Probes("") \o PragmaProbes
-Composable == Probes("")          \* indices only; the composed copies are taken from Probes(prefix)
-NP == Len(Composable)
+\* three copies of the catalogue with disjoint name prefixes (plain definitions: TLC evaluates each once)
+PC1 == Probes("c1_")
+PC2 == Probes("c2_")
+PC3 == Probes("c3_")
+AllProbes == PC1 \o PragmaProbes
+NP == Len(PC1)
 
 ASSUME \A i, j \in 1..Len(AllProbes) :
           i # j => <<AllProbes[i].kind, AllProbes[i].variant>> # <<AllProbes[j].kind, AllProbes[j].variant>>
@@ -29,12 +32,16 @@ ASSUME \A o \in SeqRange(InfixOps) \cup SeqRange(PrefixOps) \cup SeqRange(CallOp
 \* ---- expression trees ---------------------------------------------------------
 Hole == [k |-> "hole"]
 TreeBin == InfixOps \o CallOps2
+\* family "all": every operator, 1..MaxOps operators; family "deep": the operators of DeepSyms, 1..MaxOpsDeep operators
+InFam(o, fam) == fam = "all" \/ o.sym \in DeepSyms
 LeafNames == <<"x", "y", "z", "w">>
-RECURSIVE Grow(_)
-Grow(t) == IF t.k = "hole"
-           THEN {Fn(o, "i", <<Hole, Hole>>, FALSE) : o \in SeqRange(TreeBin)} \cup {Fn(o, "i", <<Hole>>, FALSE) : o \in SeqRange(PrefixOps)}
-           ELSE IF Len(t.a) = 1 THEN {[t EXCEPT !.a = <<c>>] : c \in Grow(t.a[1])}
-           ELSE {[t EXCEPT !.a = <<c, t.a[2]>>] : c \in Grow(t.a[1])} \cup {[t EXCEPT !.a = <<t.a[1], c>>] : c \in Grow(t.a[2])}
+RECURSIVE Grow(_, _)
+Grow(t, fam) ==
+    IF t.k = "hole"
+    THEN {Fn(o, "i", <<Hole, Hole>>, FALSE) : o \in {x \in SeqRange(TreeBin) : InFam(x, fam)}}
+         \cup {Fn(o, "i", <<Hole>>, FALSE) : o \in {x \in SeqRange(PrefixOps) : InFam(x, fam)}}
+    ELSE IF Len(t.a) = 1 THEN {[t EXCEPT !.a = <<c>>] : c \in Grow(t.a[1], fam)}
+    ELSE {[t EXCEPT !.a = <<c, t.a[2]>>] : c \in Grow(t.a[1], fam)} \cup {[t EXCEPT !.a = <<t.a[1], c>>] : c \in Grow(t.a[2], fam)}
 RECURSIVE Lab(_, _)
 Lab(t, n) == IF t.k = "hole" THEN <<V(LeafNames[n]), n + 1>>
              ELSE IF Len(t.a) = 1 THEN LET r == Lab(t.a[1], n) IN <<[t EXCEPT !.a = <<r[1]>>], r[2]>>
@@ -55,11 +62,11 @@ ProbeProg(pr) == [tag |-> "PROG", family |-> "probe", kind |-> pr.kind, variant 
 Rnd(s) == (s * 1103 + 12345) % 65536
 RECURSIVE RndSeq(_, _)
 RndSeq(s, n) == IF n = 0 THEN <<>> ELSE <<Rnd(s)>> \o RndSeq(Rnd(s), n - 1)
+ComposeSize == 3
 Picks(j) == LET r == RndSeq((Seed * 7919 + j * 31) % 65536, ComposeSize) IN [m \in 1..ComposeSize |-> (r[m] % NP) + 1]
-Pre(m) == "c" \o ToString(m) \o "_"
 ComposeProg(j) ==
     LET ix == Picks(j)
-        ps == [m \in 1..ComposeSize |-> Probes(Pre(m))[ix[m]]]
+        ps == <<PC1[ix[1]], PC2[ix[2]], PC3[ix[3]]>>
     IN [tag |-> "PROG", family |-> "compose", n |-> j,
         parts |-> [m \in 1..ComposeSize |-> <<ps[m].kind, ps[m].variant>>],
         kinds |-> {ps[m].kind : m \in 1..ComposeSize} \cup BaseKinds,
@@ -71,14 +78,16 @@ Init == st = [m |-> "root"]
 Next == \/ /\ st.m = "root"
            /\ \/ \E i \in 1..Len(AllProbes) : st' = [m |-> "probe", i |-> i]
               \/ \E j \in 1..NCompose : st' = [m |-> "compose", j |-> j]
-              \/ st' = [m |-> "tree", t |-> Hole]
-        \/ /\ st.m = "tree" /\ NOps(st.t) < MaxOps
-           /\ \E t2 \in Grow(st.t) : st' = [m |-> "tree", t |-> t2]
+              \/ st' = [m |-> "tree", fam |-> "all", t |-> Hole]
+              \/ MaxOpsDeep > 0 /\ st' = [m |-> "tree", fam |-> "deep", t |-> Hole]
+        \/ /\ st.m = "tree" /\ NOps(st.t) < (IF st.fam = "all" THEN MaxOps ELSE MaxOpsDeep)
+           /\ \E t2 \in Grow(st.t, st.fam) : st' = [m |-> "tree", fam |-> st.fam, t |-> t2]
 Spec == Init /\ [][Next]_st
 
 Emit == CASE st.m = "probe" -> PrintT(ToJson(ProbeProg(AllProbes[st.i])))
           [] st.m = "compose" -> PrintT(ToJson(ComposeProg(st.j)))
-          [] st.m = "tree" /\ NOps(st.t) >= 1 -> PrintT(ToJson(TreeProg(st.t, "full"))) /\ PrintT(ToJson(TreeProg(st.t, "min")))
+          \* the deep family prints only what the full-alphabet family does not
+          [] st.m = "tree" /\ NOps(st.t) >= 1 /\ (st.fam = "all" \/ NOps(st.t) > MaxOps) -> PrintT(ToJson(TreeProg(st.t, "full"))) /\ PrintT(ToJson(TreeProg(st.t, "min")))
           [] OTHER -> TRUE
 \* the catalogue itself: the list of kinds, printed once
 EmitKinds == st.m = "root" => PrintT(ToJson([tag |-> "KINDS", kinds |-> KindsOfProbes(AllProbes) \cup BaseKinds,
